@@ -10,9 +10,7 @@ import (
 	"os/exec"
 	"path/filepath"
 	"regexp"
-	"sort"
 	"strings"
-	"sync"
 	"sync/atomic"
 
 	"github.com/grafana/cog/verifx/vx"
@@ -55,7 +53,7 @@ func (e *Evaluator) javac(units []*Case, files map[string][]string, tag string) 
 	}
 	argfile := filepath.Join(tmp, "files.txt")
 	os.WriteFile(argfile, []byte(args.String()), 0o644)
-	cmd := exec.Command("javac", "-J-XX:+UseSerialGC", "-J-XX:TieredStopAtLevel=1", "-J-Xmx1500m", "-proc:none", "-nowarn", "-Xlint:none",
+	cmd := exec.Command("javac", "-J-XX:+UseSerialGC", "-J-XX:TieredStopAtLevel=1", "-J-Xmx1500m", "-proc:none", "-XDshould-stop.ifError=FLOW", "-nowarn", "-Xlint:none",
 		"-Xmaxerrs", "1000000", "-Xmaxwarns", "0", "-encoding", "UTF-8", "-d", filepath.Join(tmp, "classes"), "-cp", jacksonCP, "@"+argfile)
 	out, runErr := cmd.CombinedOutput()
 	atomic.AddInt64(&e.javacRuns, 1)
@@ -95,11 +93,14 @@ func tail(s string, n int) string {
 }
 
 // checkJava compiles the generated Java against the Jackson jars. Units are
-// compiled many at a time (each lives in its own package `verifgen.<id>`);
-// a group is recompiled without its failing units until it is clean, so a
+// compiled many at a time (each lives in its own package `verifgen.<id>` and
+// refers to nothing outside it but Jackson). javac runs with
+// -XDshould-stop.ifError=FLOW so that parsing, attribution and flow analysis
+// are completed for every class whatever errors other classes have: the
+// diagnostics of a unit do not depend on what shares the compiler process.
+// A group is recompiled without its failing units until it is clean, so a
 // unit is only declared well-formed by a javac run that reported no error at
-// all. Failing units are then compiled once more *alone*: their recorded
-// diagnostics never depend on what else shared the compiler process.
+// all (code generation included).
 func (e *Evaluator) checkJava(cases []*Case, files map[string][]string) {
 	reps, hashOf := e.dedup(cases, files, ".java")
 	if len(reps) == 0 {
@@ -114,8 +115,6 @@ func (e *Evaluator) checkJava(cases []*Case, files map[string][]string) {
 	for i, c := range reps {
 		parts[i%groups] = append(parts[i%groups], c)
 	}
-	var mu sync.Mutex
-	var failing []*Case
 	parallelN(javaWorkers, groups, func(g int) {
 		pending := parts[g]
 		for round := 0; len(pending) > 0; round++ {
@@ -123,37 +122,20 @@ func (e *Evaluator) checkJava(cases []*Case, files map[string][]string) {
 				vx.Fatalf("javac: groups do not converge")
 			}
 			res := e.javac(pending, files, fmt.Sprintf("g%d", g))
-			if len(res) == 0 {
-				mu.Lock()
-				for _, c := range pending {
-					e.verdicts[hashOf[c.ID]] = []rawDiag{}
-				}
-				mu.Unlock()
-				return
-			}
 			var rest []*Case
+			e.vmu.Lock()
 			for _, c := range pending {
-				if _, bad := res[c.ID]; bad {
-					mu.Lock()
-					failing = append(failing, c)
-					mu.Unlock()
+				if d, bad := res[c.ID]; bad {
+					e.verdicts[hashOf[c.ID]] = dedupRaw(d)
+				} else if len(res) == 0 {
+					e.verdicts[hashOf[c.ID]] = []rawDiag{}
 				} else {
 					rest = append(rest, c)
 				}
 			}
+			e.vmu.Unlock()
 			pending = rest
 		}
-	})
-	sort.Slice(failing, func(i, j int) bool { return failing[i].ID < failing[j].ID })
-	parallelN(javaWorkers, len(failing), func(i int) {
-		c := failing[i]
-		res := e.javac([]*Case{c}, files, c.ID)
-		if len(res[c.ID]) == 0 {
-			vx.Fatalf("javac: unit %s fails in a group but compiles alone", c.ID)
-		}
-		mu.Lock()
-		e.verdicts[hashOf[c.ID]] = dedupRaw(res[c.ID])
-		mu.Unlock()
 	})
 	e.applyVerdicts(cases, hashOf)
 }
